@@ -135,6 +135,12 @@ def gen_plan(rng, index, tier):
         for c in range(n):
             for _ in range(rng.choice([0, 1, 2])):
                 steps.append({"life": 0, "actor": "fuelHandler", "hook": "BOC", "cycle": c, "op": "swap", "a": rng.randrange(1000), "b": rng.randrange(1000)})
+    if cfg.get("fuelHandler") and n >= 2 and rng.random() < 0.3:
+        # an assembly is purged and its position recharged in a later cycle: the position is empty in between
+        c1 = rng.randrange(n - 1)
+        steps.append({"life": 0, "actor": "fuelHandler", "hook": "BOC", "cycle": c1, "op": "purge", "a": rng.randrange(1000)})
+        if rng.random() < 0.8:
+            steps.append({"life": 0, "actor": "fuelHandler", "hook": "BOC", "cycle": rng.randrange(c1 + 1, n), "op": "charge", "a": 0})
     if cfg.get("fuelHandler") and cfg["blueprint"].get("sfp") and rng.random() < 0.35:
         # discharge one assembly for a fresh one: objects are born in the middle of the run
         for c in sorted(rng.sample(range(n), min(n, rng.choice([1, 2])))):
@@ -592,6 +598,30 @@ def choose_swaps(d, fh):
             d.dirty = True
             d.nswaps += 1
             continue
+        if st["op"] == "purge":
+            # an assembly leaves the model for good; its position stays empty until something is charged there
+            asm = list(r.core)
+            if len(asm) < 3:
+                continue
+            out = asm[st["a"] % len(asm)]
+            holes = d.__dict__.setdefault("holes", [])
+            holes.append((out.spatialLocator, out.getType()))
+            d.fired["purge"] += 1
+            d.log.add("op", i, "purge", out.getLocation())
+            r.core.removeAssembly(out, discharge=False)
+            d.dirty = True
+            continue
+        if st["op"] == "charge":
+            holes = d.__dict__.setdefault("holes", [])
+            if not holes:
+                continue
+            loc, typ = holes.pop(0)
+            inc = r.core.createAssemblyOfType(assemType=typ)
+            d.fired["charge"] += 1
+            d.log.add("op", i, "charge", str(tuple(int(x) for x in loc.getCompleteIndices())))
+            r.core.add(inc, loc)
+            d.dirty = True
+            continue
         asm = list(r.core)
         if len(asm) < 2:
             continue
@@ -768,6 +798,46 @@ def check_history(path, log_entries, cs, nobj, pick, probes):
                     raise OracleFailure("C06.history", f"getHistoriesByLocation({here}) at {t} = {v}; the object there had {want}", {"what": "loc-value"})
         if moved:
             probes["history_after_move"] += 1
+        # -- by location, one object at a time, for objects whose position was empty at an earlier step
+        for obj in comps:
+            sn = int(obj.p.serialNum)
+            here = tuple(int(x) for x in obj.spatialLocator.getCompleteIndices())
+            empty_at = [nm for nm in plain if not any(cls == type(obj).__name__ and idx == here for cls, idx in log_entries[nm]["loc"].values())]
+            if not empty_at:
+                continue
+            h1 = db.getHistoriesByLocation([obj], ["vSent"], [_group_time(nm) for nm in plain])[obj]["vSent"]
+            probes["history_by_location_over_a_step_with_the_position_empty"] += 1
+            for nm in plain:
+                t = _group_time(nm)
+                ent = log_entries[nm]
+                occupant = [s for s, (cls, idx) in ent["loc"].items() if cls == type(obj).__name__ and idx == here]
+                key = next((kk for kk in h1 if (int(kk[0]), int(kk[1])) == t), None)
+                if len(occupant) == 1:
+                    v = None if key is None else h1[key]
+                    v = None if v is None else float(v)
+                    if key is None or v != ent["sent"].get(occupant[0]):
+                        raise OracleFailure("C06.history", f"getHistoriesByLocation({here}) alone, at {t}: {v}; the object there had {ent['sent'].get(occupant[0])}", {"what": "loc-value-single"})
+                elif not occupant and key is not None and t != cur:
+                    raise OracleFailure("C06.history", f"getHistoriesByLocation({here}) reports a value at {t}, when nothing was there", {"what": "loc-phantom"})
+            break
+        # -- the user's own reference to an object that has left the reactor since (purged, no pool)
+        first = plain[0]
+        r0 = db.load(*_group_time(first), cs=cs, allowMissing=True)
+        gone = sorted(r0.core, key=lambda a: int(a.p.serialNum))[pick % len(r0.core)]
+        sn = int(gone.p.serialNum)
+        if len(r0.core) > 1:
+            r0.core.removeAssembly(gone, discharge=False)
+            h = db.getHistories([gone], ["vSent"])[gone]["vSent"]
+            probes["history_of_an_object_outside_any_reactor"] += 1
+            got_keys = sorted((int(a), int(b)) for a, b in h.keys())
+            existed = sorted(t for t, ents in by_time.items() if any(sn in e["sent"] for e in ents))
+            if got_keys != existed:
+                raise OracleFailure("C06.history", f"getHistories of an object held outside the reactor lists steps {got_keys}, it was written at steps {existed}", {"what": "steps-detached"})
+            for (a, b), v in h.items():
+                allowed = [e["sent"].get(sn) for e in by_time[(int(a), int(b))]]
+                v = None if v is None else float(v)
+                if v not in allowed:
+                    raise OracleFailure("C06.history", f"getHistories(detached serial {sn}) at {(int(a), int(b))} = {v}; the object had {allowed} there", {"what": "value-detached"})
         _ = (np, asms)
 
 
